@@ -384,7 +384,10 @@ func gen(t *rapid.T) Case {
 		}
 	}
 	if g.chance(3, "consumes") {
-		doc["consumes"] = []any{"application/json"}
+		doc["consumes"] = rapid.SampledFrom([][]any{{"application/json"}, {"application/json", "application/xml"}, {"application/xml", "application/json", "text/plain"}}).Draw(t, "gconsumes")
+		if len(doc["consumes"].([]any)) > 1 {
+			g.feats["multi-consumes"] = true
+		}
 	}
 	if g.chance(3, "produces") {
 		doc["produces"] = []any{"application/json"}
@@ -524,6 +527,12 @@ func gen(t *rapid.T) Case {
 							b["required"] = true
 						}
 						params = append(params, b)
+						if g.chance(4, "opconsumes") {
+							op["consumes"] = rapid.SampledFrom([][]any{{"application/xml"}, {"application/json", "application/xml"}, {"text/plain", "application/json"}}).Draw(t, "oconsumes")
+							if len(op["consumes"].([]any)) > 1 {
+								g.feats["multi-consumes"] = true
+							}
+						}
 					}
 					g.feats["body"] = true
 				case 1:
